@@ -545,9 +545,15 @@ Record lookup := mk_lk {
   lk_after : list (string * string) }.    (* (Hash, From) of every member after the call *)
 
 Record unwrap_case := mk_uc {
-  uc_pool : list eth_tx;                  (* the signed transactions *)
-  uc_table : list (bytes * bytes);        (* graph of Keccak on their hash preimages: (MarshalBinary, Hash) *)
+  uc_pool : list eth_tx;                  (* the signed transactions that are members of some envelope *)
+  uc_hashes : list bytes;                 (* tx.Hash() of each, as go-ethereum computed it *)
   uc_lookups : list lookup }.
+
+(** Keccak restricted to the pool: the graph pairing the hash preimage of every
+    pool transaction (that these are the bytes go-ethereum hashes is what the
+    [cases] list checks, byte for byte, for every transaction) with the hash
+    go-ethereum computed *)
+Definition uc_table (c : unwrap_case) : list (bytes * bytes) := combine (map hash_preimage (uc_pool c)) (uc_hashes c).
 
 (** the hash function given by a finite graph; a preimage the implementation did
     not hash gets the empty hash (and the comparison fails) *)
@@ -593,9 +599,52 @@ Definition check_unwrap_case (c : unwrap_case) : bool :=
   let wrapped_pool := map (from_eth_tx hash no_csum) (uc_pool c) in
   forallb (check_lookup hash wrapped_pool) (uc_lookups c).
 
+(** The same check, evaluated faster: the Ethereum hash of a pool member is
+    computed once per case instead of once per visit, and carried along with the
+    message (forging [Hash] / [From] does not touch the TxData it is computed
+    from).  [check_unwrap_case_memo_eq] (UnwrapProofs.v) proves the two checks
+    equal on every input; the correspondence run evaluates this one. *)
+Definition eth_hash (hash : bytes -> bytes) (m : emsg) : option bytes := option_map (tx_hash hash) (as_tx m).
+Definition annot (hash : bytes -> bytes) (m : emsg) : emsg * option bytes := (m, eth_hash hash m).
+
+Fixpoint scan_memo (i : nat) (msgs : list (emsg * option bytes)) (h : bytes) : list emsg * option (nat * emsg) :=
+  match msgs with
+  | [] => ([], None)
+  | (m, Some x) :: r =>
+      let m' := refresh m x in
+      if bytes_eq_dec x h then (m' :: map fst r, Some (i, m'))
+      else let '(r', res) := scan_memo (S i) r h in (m' :: r', res)
+  | (m, None) :: r => let '(r', res) := scan_memo (S i) r h in (m :: r', res)
+  end.
+
+Definition forge_hashes_memo (fs : list (nat * string)) (msgs : list (emsg * option bytes)) :=
+  fold_left (fun ms f => update_nth (fun p => (mk_emsg (m_data (fst p)) (snd f) (m_from (fst p)), snd p)) (fst f) ms) fs msgs.
+Definition forge_froms_memo (fs : list (nat * string)) (msgs : list (emsg * option bytes)) :=
+  fold_left (fun ms f => update_nth (fun p => (mk_emsg (m_data (fst p)) (m_hash (fst p)) (snd f), snd p)) (fst f) ms) fs msgs.
+
+Definition check_lookup_memo (pool : list (option (emsg * option bytes))) (lk : lookup) : bool :=
+  match all_some (map (fun i => nth i pool None) (lk_env lk)) with
+  | None => false
+  | Some msgs0 =>
+      let msgs := forge_froms_memo (lk_forge_from lk) (forge_hashes_memo (lk_forge_hash lk) msgs0) in
+      let '(after, res) := scan_memo 0 msgs (lk_req lk) in
+      eqb onat_eq_dec (option_map fst res) (lk_found lk) &&
+      eqb after_eq_dec (map (fun m => (m_hash m, m_from m)) after) (lk_after lk)
+  end.
+
+Definition check_unwrap_case_memo (c : unwrap_case) : bool :=
+  let hash := table_hash (uc_table c) in
+  let pool := map (fun tx => option_map (annot hash) (from_eth_tx hash no_csum tx)) (uc_pool c) in
+  forallb (check_lookup_memo pool) (uc_lookups c).
+
 Fixpoint mismatches_unwrap_from (i : nat) (cs : list unwrap_case) : list nat :=
   match cs with
   | [] => []
-  | c :: r => if check_unwrap_case c then mismatches_unwrap_from (S i) r else i :: mismatches_unwrap_from (S i) r
+  | c :: r => if check_unwrap_case_memo c then mismatches_unwrap_from (S i) r else i :: mismatches_unwrap_from (S i) r
   end.
 Definition mismatches_unwrap (cs : list unwrap_case) : list nat := mismatches_unwrap_from 0 cs.
+
+(** [flip h k]: the hash [h] with bit [k] flipped (bit [k mod 8] of byte [k / 8]);
+    shorthand of the generated case files *)
+Definition flip (h : bytes) (k : nat) : bytes :=
+  update_nth (fun b => N.lxor b (N.shiftl 1 (N.of_nat (Nat.modulo k 8)))) (Nat.div k 8) h.
